@@ -175,10 +175,22 @@ def recursion_order(ctx, o, ps: PassShape, pt):
             break
         return e
 
+    def same_wbs_part(itc, fo):
+        """the loop runs over `[d for d in <the dependency collection> if d.wbs is task.wbs]`: the dependencies inside the WBS being
+        scheduled - the same restriction as the accepted `if d.wbs is task.wbs:` around the call"""
+        e = sched.strip_seq_copy(ps.ex.expand(itc, ps.cfg.node_of(fo)))
+        parts = facts.comp_parts(e)
+        if not parts or not isinstance(parts[0], ast.Name) or not isinstance(parts[1], ast.Name) or parts[0].id != parts[1].id or not parts[3]:
+            return False
+        if not all(sched._same_wbs_guard(c_, True, parts[1].id, ps.task) for c_ in parts[3]):
+            return False
+        return same(parts[2], it) or same(root_name(parts[2]), root_name(it)) or \
+            same(parts[2], ps.ex.expand(it, ps.cfg.node_of(pt['stmt'])))
+
     for c in calls:
         ci = ps.call_iter(c)
         fo, itc = ci if ci is not None else (None, None)
-        if fo is not None and (same(itc, it) or same(root_name(itc), root_name(it))):
+        if fo is not None and (same(itc, it) or same(root_name(itc), root_name(it)) or same_wbs_part(itc, fo)):
             rec = (c, fo)
         elif fo is None or not match(f"{ps.task}.children", sched.whole_seq(root_name(ps.ex.expand(itc, ps.cfg.node_of(fo))))):
             other.append(c)
@@ -278,9 +290,32 @@ def leaf_bound(ctx, o, ps: PassShape, pt):
     search_name = ctx.prog.func(S['search']).name
     # the last store in the region carries the final value; all stores must respect the bound
     found_search = False
+
+    def _is_search(e):
+        return isinstance(e, ast.Call) and isinstance(e.func, ast.Attribute) and unmangle(e.func.attr) == search_name
+    # bounds applied to the search RESULT afterwards (`start = max(search(..), min_start)`): they bound the start as well
+    later_bounds = []
+    post_search = set()
+    for st, tgt, val, reg in stores:
+        if isinstance(st, ast.AugAssign):
+            continue
+        vfull = ps.ex.expand(val, ps.cfg.node_of(st), stop={pt['name']} if pt else None)
+        fa = facts.flatten_lattice(vfull, ps.lat)
+        if fa and len([a for a in fa if _is_search(a)]) == 1 and len(fa) > 1:
+            for a in fa:
+                if _is_search(a):
+                    continue
+                if match(f"{ps.task}.min_start", a) and any(facts.cond_is(t_, p_, f"{ps.task}.min_start is None", want=False) or
+                                                             facts.cond_is(t_, p_, f"{ps.task}.min_start", want=True) for t_, p_ in ps.conds(st)):
+                    a = ast.parse(f"{ps.task}.min_start or datetime(1970, 1, 1)", mode='eval').body     # applied whenever it is set
+                later_bounds.append(a)
+            post_search.add(id(st))
     for st, tgt, val, reg in stores:
         cn = ps.cfg.node_of(st)
         v = ps.ex.expand(val, cn, stop={pt['name']} if pt else None)
+        if id(st) in post_search:
+            fa = facts.flatten_lattice(v, ps.lat)
+            v = next(a for a in fa if _is_search(a))        # judged as the search store, the extra operands count as bounds
         if isinstance(st, ast.AugAssign):
             # backward: end += 1 day after the search
             k = facts.day_delta(st.value)
@@ -303,17 +338,31 @@ def leaf_bound(ctx, o, ps: PassShape, pt):
             bound_arg = m.args[2]
             if not (isinstance(m.args[3], ast.Name) and m.args[3].id == ps.task):
                 o.refute(ps.f, st, val, "the availability search is asked about another task")
-            check_bound_term(ctx, o, ps, pt, st, bound_arg, fwd)
+            check_bound_term(ctx, o, ps, pt, st, bound_arg, fwd, also=later_bounds)
+        elif any(_is_search(x) for x in ast.walk(v)):
+            opp = facts.flatten_lattice(v, 'min' if ps.lat == 'max' else 'max')
+            if opp and any(_is_search(a) for a in opp):
+                o.refute(ps.f, st, val, f"the search result is put through `{src(v)[:70]}`: the leaf {attr} can move to the wrong side of "
+                                        f"its bounds (the {'lower' if fwd else 'upper'} bounds hold for the search result only)")
+            else:
+                o.undecided(ps.f, st, val, f"the search result is post-processed by `{src(v)[:70]}`: cannot tell whether the bounds still hold")
         else:
-            # a store that is not the search: must itself be the bound term (it is then refined by the search)
-            check_bound_term(ctx, o, ps, pt, st, v, fwd, intermediate=True)
+            # a store in front of the search is the value the search is started from (judged through the search's argument); a store
+            # no search store follows is the value the leaf keeps on that path: it must carry the bounds itself
+            feeds = any(ps.cfg.node_of(s2) is not None and cn is not None and ps.cfg.node_of(s2) is not cn and ps.cfg.can_reach(cn, ps.cfg.node_of(s2))
+                        for s2, _, v2, _ in stores if not isinstance(s2, ast.AugAssign) and
+                        any(_is_search(x) for x in ast.walk(ps.ex.expand(v2, ps.cfg.node_of(s2)))))
+            if not feeds:
+                check_bound_term(ctx, o, ps, pt, st, v, fwd, intermediate=True)
     if not found_search:
         o.refute(ps.f, stores[-1][0], stores[-1][2], f"the leaf {attr} is not moved to a day with free capacity by the availability search")
 
 
-def check_bound_term(ctx, o, ps, pt, st, term, fwd, intermediate=False):
+def check_bound_term(ctx, o, ps, pt, st, term, fwd, intermediate=False, also=None):
     lat = ps.lat
     args = facts.flatten_lattice(term, lat)
+    if args is not None and also:
+        args = list(args) + list(also)
     if args is None:
         other = facts.flatten_lattice(term, 'min' if lat == 'max' else 'max')
         if other is not None:
@@ -633,7 +682,7 @@ def milestone_placement(ctx, o, ps: PassShape, pt):
             o.refute(ps.f, st, val, f"milestone {attr} is not 0")
 
 
-def search_monotone(ctx, o, S):
+def search_monotone(ctx, o, S, exact=True):
     """the availability search starts at resource.get_nearest_availability_date(start_date, dir) and only ever steps by
     exactly one day in the scheduling direction; it returns midnight(d) +/- a fraction of a day"""
     prog = ctx.prog
@@ -850,6 +899,13 @@ def search_monotone(ctx, o, S):
             k = _delta_x(x.stmt.value, x.node)
             if isinstance(x.stmt.op, ast.Sub) and k is not None:
                 k = -k
+            if k is None and not exact:
+                # monotonicity only (C02): a step whose size depends on the day but always goes forward in the search direction
+                tm = match("timedelta(days=$n)", x.stmt.value)
+                cases_ = [c_ for _, c_ in sched.expr_cases(tm['n'])] if tm else []
+                sgn = -1 if isinstance(x.stmt.op, ast.Sub) else 1
+                if cases_ and all(facts.const_num(c_) is not None and facts.const_num(c_) * sgn * d >= 1 for c_ in cases_):
+                    k = d
             if k != d:
                 o.refute(f, x.stmt, x.stmt, f"search steps by `{src(x.stmt)}`; expected exactly {d:+d} day per iteration")
                 ok = False
